@@ -259,7 +259,12 @@ impl CompiledItem {
                     for arg in &arguments[..] {
                         args.push(' ');
                         // backslashes first, then what the reader (`split_string`) decodes again.
-                        let replaced = arg.replace('\\', "\\\\").replace('"', "\\\"");
+                        let replaced = arg
+                            .replace('\\', "\\\\")
+                            .replace('"', "\\\"")
+                            .replace('\n', "\\n")
+                            .replace('\r', "\\r")
+                            .replace('\t', "\\t");
                         let arg = fix_arg_if_needed(&replaced)?;
                         args.push_str(arg.as_ref());
                     }
